@@ -22,6 +22,23 @@ func (x v) Exit(n js.INode) {}
 
 func main() {
 	for _, s := range os.Args[1:] {
+		if strings.HasPrefix(s, "deep:") {
+			// deep:<open>:<middle>:<close>:<n>  — nests a construct n times and reports whether js.Parse returns
+			f := strings.Split(s, ":")
+			n := 0
+			fmt.Sscan(f[4], &n)
+			src := strings.Repeat(f[1], n) + f[2] + strings.Repeat(f[3], n)
+			_, err := js.Parse(parse.NewInputString(src), js.Options{})
+			e := "<nil>"
+			if err != nil {
+				e = err.Error()
+				if len(e) > 80 {
+					e = e[:80]
+				}
+			}
+			fmt.Printf("deep %q x %d: returned, err=%s\n", f[1], n, e)
+			continue
+		}
 		if strings.HasPrefix(s, "@") {
 			b, _ := os.ReadFile(s[1:])
 			s = string(b)
